@@ -37,8 +37,11 @@ def run(ctx, rep) -> None:
     r = tlc.run('MC_Lifecycle', 'MC_Lifecycle_neg_f29.cfg', timeout=600)
     if r.ok or ('invariant', 'NoLateDaemon') not in r.violated:
         raise MachineryFailure(f'witness configuration MC_Lifecycle_neg_f29 did not reach the family F29: {r.violated}')
+    r = tlc.run('MC_Lifecycle', 'MC_Lifecycle_neg_f5.cfg', timeout=600)
+    if r.ok or ('invariant', 'NoOrphan') not in r.violated:
+        raise MachineryFailure(f'witness configuration MC_Lifecycle_neg_f5 did not reach the family F5: {r.violated}')
     rep.extra['negative_config'] = ('MC_Lifecycle_neg (an ungated task issues requests): NoApiBeforeStartup violated, as required; '
-                                    'MC_Lifecycle_neg_f29: the known family F29 is reachable')
+                                    'MC_Lifecycle_neg_f29 / _neg_f5: the known families F29 and F5 are reachable')
     scs = L.crafted() + L.gen_scenarios(ctx.seed, 250 if ctx.quick else 5000)
     with ProcessPoolExecutor(16) as ex:
         traces = list(ex.map(L.run_scenario, scs, chunksize=2))
@@ -54,6 +57,6 @@ def run(ctx, rep) -> None:
         if t['stall']:
             rep.violation(f'{t["id"]}: event loop stalled', payload=t)
         elif v != 'ok':
-            rep.classified(v if v in ('F14', 'F15', 'F29') else '', f'{t["id"]}: {v}', payload=t)
+            rep.classified(v if v in ('F14', 'F15', 'F29', 'F5') else '', f'{t["id"]}: {v}', payload=t)
     rep.sample({'scenario': traces[0]['scenario'], 'events': [e for e in traces[0]['events'] if e['ev'] != 'api'][:14]})
     rep.sample({'scenario': traces[5]['scenario'], 'events': [e for e in traces[5]['events'] if e['ev'] != 'api'][:14]})
